@@ -395,6 +395,15 @@ def c04_family(tier):
                 out.append(timely(scn(f'relay/k{k}/S{S}/p{ps}-{pc}', [src(N, required='mid', period=ps), relay('mid', ['src'], required='snk'),
                                                                       sink('snk', ['mid'], post)]), **kw))
 
+    # the stalled consumer also listens to an ephemeral source (listed before / after the synchronized one)
+    for order in ['eph-first', 'sync-first']:
+        for k in [2]:
+            S = 1500
+            srcs = ['side?;main>side', 'src'] if order == 'eph-first' else ['src', 'side?;main>side']
+            out.append(timely(scn(f'mixed-oneof2/{order}/k{k}/S{S}', [src(N, required='snk,other', period=20), src(N, 'side', period=35),
+                                                                    sink('snk', srcs, stall(k, S)), sink('other', ['src;main>x'])]),
+                              quiet=S + 800, horizon=S + 1500))
+
     # stall longer than the connection timeout, consumer not a required output: producer may move on (nothing to check but order)
     for k in [1]:
         out.append(timely(scn(f'oneof2-timeout/k{k}', [src(N, required='other', period=30), sink('snk', ['src'], stall(k, 2500)),
@@ -442,6 +451,13 @@ def c05_family(tier, n):
         fs = [src(n, 'A', required='B', period=40), relay('B', ['A'], required='F'), relay('D', ['A?'], db),
               sink('F', ['B', 'D?;main>side'])]
         out.append(timely(scn(f'ephemeral-rejoin/{db}', fs), quiet=800))
+
+    # consumers that mix source kinds, in both orders: a synchronized source next to a '?' / '??' one
+    for order in ['eph-first', 'sync-first']:
+        for m in ['?', '??']:
+            srcs = [f'side{m};main>side', 'src'] if order == 'eph-first' else ['src', f'side{m};main>side']
+            fs = [src(n, required='snk,other', period=40), src(n + 4, 'side', period=25), sink('snk', srcs), sink('other', ['src;main>x'], [('slow', 60)])]
+            out.append(timely(scn(f'mixed/{order}/{m}', fs), quiet=800))
 
     # killed listener (hard kill at every step of the reference run)
     for m in ['?', '??']:
